@@ -3,7 +3,7 @@ import ast
 import itertools
 
 from vstat.loader import AnalysisError
-from vstat.terms import subst, IT, CMP, ordered, builder, show, SELF, NONE, G, alts, walk, mentions, phi, strip_none, neg_test
+from vstat.terms import top_alts, subst, IT, CMP, ordered, builder, show, SELF, NONE, G, alts, walk, mentions, phi, strip_none, neg_test
 from vstat.guards import path_conditions, exception_name
 from vstat.cfg import cfg_of, EXIT
 from vstat.dataflow import rd_of
@@ -97,7 +97,7 @@ def mask_sources(prog, fn, b):
         src = t
     if src is None:
         raise AnalysisError(f"{fn.qualname}: cannot trace the returned masks")
-    for a in alts(src):
+    for _lits_, a in top_alts(src):
         if a[0] == "comp":
             out.append(("comp", a, a[2]))
         elif a[0] == "list":
@@ -227,13 +227,15 @@ def width_slicer(prog, rep):
     E = None
     seen = {True: False, False: False}
     for st in cfg_of(fn).all_stmts():
-        if isinstance(st, ast.Assign) and isinstance(st.value, ast.ListComp):
-            t = b.term(st.value, st)
+        if not (isinstance(st, ast.Assign) and isinstance(st.value, (ast.ListComp, ast.IfExp))):
+            continue
+        # one comprehension per orientation, chosen by if/else statements or by one conditional expression
+        for lits_, t in top_alts(b.term(st.value, st)):
             pm = parse_mask(t[2]) if t[0] == "comp" else None
             if pm is None:
                 continue
             lo, loi, up, upi = pm
-            pc = pcs.of(st)
+            pc = tuple(pcs.of(st)) + tuple(lits_)
             branch = True if ro in pc else False if ("not", ro) in pc else None
             inst = f"{q}:{'right_open' if branch else 'left_open' if branch is False else 'unconditional'}"
             site = fn.where(st)
